@@ -29,9 +29,8 @@ Go == /\ ph = "build" /\ ph' = "close"
       /\ UNCHANGED <<P, w, i, truncated>>
 
 Pop(c) == /\ ph = "close" /\ c \in todo /\ iter < MaxIter
-          /\ LET new == StepOn(P, {c}, Eps) \ R
-             IN /\ R' = R \cup new
-                /\ todo' = (todo \ {c}) \cup new
+          /\ R' = PcResult(P, R, c)
+          /\ todo' = PcTodo(P, R, todo, c)
           /\ iter' = iter + 1
           /\ UNCHANGED <<P, w, i, ph, truncated>>
 
